@@ -89,7 +89,7 @@ def audit_sources():
 def print_axioms(module, thms):
     if not thms:
         return True, {}, ""
-    src = f"import HLV.Props.{module}\nopen HLV\n" + "".join(f"#print axioms {n}\n" for n, _ in thms)
+    src = f"import HLV.Props.{module}\nimport HLV.Model.Own\nopen HLV HLV.Own\n" + "".join(f"#print axioms {n}\n" for n, _ in thms)
     f = os.path.join(BUILD, f"axioms_{module}.lean")
     open(f, "w").write(src)
     rc, out = sh(["lake", "env", "lean", f], cwd=os.path.join(ROOT, "lean"), timeout=1200)
@@ -379,6 +379,110 @@ def static_property(pid, tier, seed, replay):
 
 EXTRA["C14"] = static_property
 EXTRA["C15"] = static_property
+
+def own_property(pid, tier, seed, replay):
+    """C16: drop-counting harness over the real crate, expectations computed by the Lean ownership
+    model (HLV.Model.Own: build/setPos/flatten), theorems in HLV.Props.C16."""
+    t0 = time.time()
+    evidence = {}; violations = []
+    drv = os.path.join(ROOT, "lean", ".lake", "build", "bin", "hlv-driver")
+    if replay:
+        j = json.load(open(replay))
+        print(json.dumps(j, indent=1)[:3000])
+        okb, bout, _ = build_harness()
+        if okb and j.get("lines"):
+            want = {l.split(";values=")[0] for l in j["lines"]}
+            p = subprocess.run([os.path.join(BUILD, "cargo", "release", "drops")], stdout=subprocess.PIPE,
+                               stderr=subprocess.STDOUT, text=True, env=ENV)
+            for l in p.stdout.splitlines():
+                if l.split(";values=")[0] in want:
+                    print("now:", l)
+        return 0
+    lean_ok, n_obl, n_dis = lean_obligations(pid, pid, evidence, violations)
+    t1 = time.time()
+    okb, bout, _ = build_harness()
+    evidence["harness_build_s"] = round(time.time() - t1, 1)
+    lines = []; verdicts = []; crashed = None
+    if not okb:
+        violations.append(dict(kind="correspondence", what="harness does not build against the current tree", detail=bout[-3000:]))
+    else:
+        p = subprocess.run([os.path.join(BUILD, "cargo", "release", "drops")], stdout=subprocess.PIPE,
+                           stderr=subprocess.PIPE, text=True, env=ENV)
+        lines = [l for l in p.stdout.splitlines() if l.strip()]
+        if p.returncode != 0:
+            crashed = dict(rc=p.returncode, stderr=p.stderr[-2000:], last_line=(lines[-1] if lines else None))
+        if lean_ok and lines:
+            q = subprocess.run([drv, "drops"], input="\n".join(lines) + "\n", stdout=subprocess.PIPE,
+                               stderr=subprocess.STDOUT, text=True)
+            verdicts = q.stdout.splitlines()
+    fails = [(l, v) for l, v in zip(lines, verdicts) if v != "ok"]
+    if verdicts and len(verdicts) != len(lines):
+        violations.append(dict(kind="correspondence", what=f"driver answered {len(verdicts)} of {len(lines)} lines"))
+    out_lines = []; rc = 0
+    # the harness enumerates a fixed list of shapes x paths; a run that printed fewer lines than the
+    # registered minimum means a path crashed or was skipped
+    MIN_LINES = 340
+    if fails or crashed:
+        payload = dict(property=pid, kind="direct violation: the real crate dropped a payload zero or several times, or returned values at other than their declared positions",
+                       lines=[l for l, _ in fails[:40]], why=[v for _, v in fails[:40]], crash=crashed,
+                       replay_cmd=f"./check {pid} --replay <this file>  (rebuilds the harness against /repo and re-prints these lines)")
+        pth = write_replay(pid, "direct", payload)
+        out_lines.append(f"VIOLATION property={pid} replay={pth}")
+        rc = 1
+    elif violations or (okb and len(lines) < MIN_LINES):
+        if okb and len(lines) < MIN_LINES:
+            violations.append(dict(kind="correspondence", what=f"harness printed {len(lines)} lines, expected at least {MIN_LINES}"))
+        pth = write_replay(pid, "unproved", dict(property=pid, kind="a theorem or the correspondence run no longer checks; no failing input found",
+                                                 broken_obligations=violations, theorems=[t["name"] for t in evidence.get("theorems", [])]))
+        out_lines.append(f"VIOLATION property={pid} replay={pth} no-failing-input-found")
+        rc = 1
+    shapes = sorted({l.split(";")[0] for l in lines}); paths = sorted({l.split(";")[1].split("(")[0] for l in lines if ";" in l})
+    wall = time.time() - t0
+    ev = dict(property_id=pid, tier=tier, seed=seed, level="proof",
+              coverage=dict(obligations=max(n_obl, 1), discharged=n_dis if n_obl else 0,
+                            checker_cmd=f"cd lean && lake build HLV.Props.{pid} hlv-driver; #print axioms of every registered theorem; harness/bin/drops (real crate, drop-counting payloads) | hlv-driver drops",
+                            trusted_base=["Lean 4.33 kernel", "axioms: propext, Classical.choice, Quot.sound only",
+                                          "the hand-written ownership model HLV/Model/Own.lean (MemOp programs for BoxedLockCollection new/drop/into_child; VTree build/setPos/flatten for value positions), tied to the code by the drops correspondence run",
+                                          "the drop-counting harness harness/src/bin/drops.rs; Rust's own drop glue for tuples/arrays/Vec is not modelled (taken as exactly-once)"],
+                            programs=len(lines), disagreements_checked=len(verdicts), evaluations=len(lines),
+                            distinct_nontrivial=len(shapes),
+                            rule="one program per (owned shape, API path): construct, optionally get_mut/write under lock, consume by into_inner/into_child/into_iter/drop; non-trivial = distinct shapes",
+                            samples=lines[:3] + lines[-3:] if lines else ["(none)"],
+                            shape_count=len(shapes), path_kinds=paths, exhaustive=True,
+                            theorems=evidence.get("theorems", []),
+                            timings={k: v for k, v in evidence.items() if k.endswith("_s")}),
+              assumptions=["memory safety proper (no UB) is outside what the model exhibits: the harness observes drop counts and values only; run under Miri in the thorough tier when available",
+                           "shapes are those enumerated by the harness (24 owned shapes up to depth 3)"],
+              wall_s=round(wall, 1), violations=(1 if rc else 0))
+    if tier == "thorough" and okb:
+        m = run_miri_drops()
+        ev["coverage"]["miri"] = m
+        if m.get("ran") and m.get("rc") != 0 and rc == 0:
+            pth = write_replay(pid, "direct", dict(property=pid, kind="Miri reports undefined behaviour or a leak in the drops harness over the real crate",
+                                                   output=m.get("tail"), replay_cmd="cd harness && cargo +nightly miri run --bin drops"))
+            out_lines.append(f"VIOLATION property={pid} replay={pth}")
+            rc = 1; ev["violations"] = 1
+    os.makedirs(os.path.join(ROOT, "evidence"), exist_ok=True)
+    json.dump(ev, open(os.path.join(ROOT, "evidence", pid + ".json"), "w"), indent=1)
+    for l in out_lines: print(l)
+    print(f"{pid}: {'FAIL' if rc else 'ok'} — {n_dis}/{n_obl} theorems, {len(lines)} drop/value programs over {len(shapes)} shapes ({len(fails)} disagree), {wall:.0f}s")
+    return rc
+
+def run_miri_drops():
+    """thorough tier: the same drops binary under Miri (UB + leak detection). Informative if Miri is missing."""
+    t = time.time()
+    env = dict(ENV); env["MIRIFLAGS"] = "-Zmiri-disable-isolation"
+    env["CARGO_TARGET_DIR"] = os.path.join(BUILD, "cargo-miri")
+    try:
+        p = subprocess.run(["cargo", "+nightly", "miri", "run", "--offline", "--bin", "drops"], cwd=os.path.join(ROOT, "harness"),
+                           stdout=subprocess.PIPE, stderr=subprocess.PIPE, text=True, env=env, timeout=3000)
+    except Exception as e:
+        return dict(ran=False, why=str(e))
+    if "error: no such command" in p.stderr or "toolchain 'nightly" in p.stderr and "not installed" in p.stderr:
+        return dict(ran=False, why=p.stderr[-300:])
+    return dict(ran=True, rc=p.returncode, lines=len(p.stdout.splitlines()), tail=p.stderr[-1500:], wall_s=round(time.time() - t, 1))
+
+EXTRA["C16"] = own_property
 
 def lean_obligations(pid, module, evidence, violations):
     """builds the theorem module + driver, audits axioms. Returns (ok, n_obligations, n_discharged)."""
